@@ -107,6 +107,14 @@ class Mode(typing.Container[Text]):
             raise ValueError("mode must start with 'r', 'w', 'x', or 'a'")
         if "t" in mode and "b" in mode:
             raise ValueError("mode can't be binary ('b') and text ('t')")
+        # the same two rules as `io.open`, so that every filesystem agrees
+        # with the ones (OSFS, TempFS) that hand the mode string to `io.open`
+        if len(set(mode)) != len(mode):
+            raise ValueError("mode '{}' repeats a character".format(mode))
+        if sum(c in mode for c in "rwxa") != 1:
+            raise ValueError(
+                "mode must have exactly one of 'r', 'w', 'x' or 'a' (not '{}')".format(mode)
+            )
 
     def validate_bin(self):
         # type: () -> None
